@@ -1,6 +1,7 @@
 import VProofs.C01
 import VProofs.Lemmas.TagFinal
 import VProofs.Lemmas.TagLocal
+import VProofs.Lemmas.TagWindow0
 /-!
 # C06 — Predicted tags equal the per-token linear classifiers
 
@@ -200,4 +201,137 @@ def C06_exModelNear : WModel :=
 /-- one character fewer on the left (`en = R - 1`) and the conclusion fails -/
 example : specTokenTags C06_exModelNear (['b'] ++ ['a', 'b', 'a'] ++ []) (1 + 0) (1 + 1)
     ≠ specTokenTags C06_exModelNear (['a'] ++ ['a', 'b', 'a'] ++ []) (1 + 0) (1 + 1) := by decide
+/-! ## window size 0 (`--charw 0`, `--typew 0`): the tag side is unaffected
+
+A window of 0 switches off the BOUNDARY n-grams of that kind (`C01_scores_window0`); the tag n-grams of both kinds still
+count.  The tag-weight table of a scorer has `max(window + 1, rel + 1)` rows, so with window 0 it still has a row for relative
+position 0 and for every relative position that occurs.  The three theorems above therefore hold verbatim for `WFModel0`;
+the specification (`specNTags`, `specAllTags`, `C06L.allScores`, `tagModelOf`, `specTagScores`) reads `m.tagModels` only, so it
+is that of `m` itself — `dropW0 m` would give the same (`C06_spec_dropW0`). -/
+
+/-- the tag specification does not see the boundary n-grams: dropping those of the switched-off kinds changes nothing -/
+theorem C06_spec_dropW0 (cfg : Cfg) (m : WModel) :
+    specNTags (dropW0 m) = specNTags m ∧ specAllTags (dropW0 m) = specAllTags m ∧
+    C06L.allScores cfg (dropW0 m) = C06L.allScores cfg m ∧ tagModelOf (dropW0 m) = tagModelOf m ∧
+    (WFTags (dropW0 m) ↔ WFTags m) :=
+  ⟨rfl, rfl, rfl, rfl, ⟨fun h => ⟨h.1, h.2, h.3, h.4⟩, fun h => ⟨h.1, h.2, h.3, h.4⟩⟩⟩
+
+/-- `C06_predictTags` for windows 0..255 -/
+theorem C06_predictTags_window0 (cfg : Cfg) (m : WModel) (hm : WFModel0 m) (ht : WFTags m)
+    (p : Predictor) (hp : Predictor.new cfg m true = .ok p) (store : Bool)
+    (s s1 : Sentence) (hs : SentOK s) (pid : Nat) (h1 : p.predict pid s = .ok s1)
+    (bs : List B) (hbs : bs.length = s1.bounds.length) (hn : 0 < specNTags m) :
+    bs.length + 1 = s.text.length ∧
+    ({ p with storeTagScores := store } : Predictor).predictTags { s1 with bounds := bs }
+      = .ok { s1 with bounds := bs, nTags := specNTags m, tags := specAllTags m s.text bs,
+                      tagScores := if store = true then C06L.allScores cfg m s.text bs else [] } := by
+  rw [specAllTags_eq]
+  exact C06L.predictTags_full0 cfg m hm.char_shape hm.type_shape
+    (fun d hd => (hm.dict_shape d hd).1) ht.toL p hp store s s1 hs.text_ne hs.types_eq hs.bounds_len pid h1 bs hbs hn
+
+set_option linter.unusedVariables false in
+/-- **main theorem, windows 0..255**: as `C06_tags`, for every model that is well-formed up to the n-grams of switched-off
+kinds: with `--charw 0` and/or `--typew 0` `fill_tags` does not panic either, and every tag n-gram of either kind still
+contributes its weight at its stated offset -/
+theorem C06_tags_window0 (cfg : Cfg) (hcfg : cfg.tagPred = true) (m : WModel) (hm : WFModel0 m) (ht : WFTags m)
+    (p : Predictor) (hp : Predictor.new cfg m true = .ok p) (store : Bool)
+    (s s1 : Sentence) (hs : SentOK s) (pid : Nat) (h1 : p.predict pid s = .ok s1)
+    (bs : List B) (hbs : bs.length = s1.bounds.length) (hn : 0 < specNTags m) :
+    ∃ s3, ({ p with storeTagScores := store } : Predictor).predictTags { s1 with bounds := bs } = .ok s3 ∧
+      s3.nTags = specNTags m ∧ s3.tags = specAllTags m s.text bs ∧
+      s3.bounds = bs ∧ s3.text = s.text ∧ s3.types = s1.types ∧ s3.scores = s1.scores ∧ s3.padding = s1.padding := by
+  obtain ⟨_, h3⟩ := C06_predictTags_window0 cfg m hm ht p hp store s s1 hs pid h1 bs hbs hn
+  have htext : s1.text = s.text := (C06L.predict_states p pid s s1 h1).1
+  exact ⟨_, h3, rfl, rfl, rfl, htext, rfl, rfl, rfl⟩
+
+set_option linter.unusedVariables false in
+/-- `C06_candidates` for windows 0..255 -/
+theorem C06_candidates_window0 (cfg : Cfg) (hcfg : cfg.tagPred = true) (m : WModel) (hm : WFModel0 m) (ht : WFTags m)
+    (p : Predictor) (hp : Predictor.new cfg m true = .ok p) (store : Bool)
+    (s s1 s3 : Sentence) (hs : SentOK s) (pid : Nat) (h1 : p.predict pid s = .ok s1)
+    (bs : List B) (hbs : bs.length = s1.bounds.length) (hn : 0 < specNTags m)
+    (h3 : ({ p with storeTagScores := store } : Predictor).predictTags { s1 with bounds := bs } = .ok s3) :
+    (store = false → s3.tagScores = []) ∧
+    (store = true → ∀ se ∈ specTokens bs,
+      s3.tagCandidates se.2 = .ok (match tagModelOf m ((s.text.drop se.1).take (se.2 - se.1)) with
+        | some tm => specCandidates tm.tags (specTagScores tm s.text (se.2 - 1))
+        | none => [])) := by
+  obtain ⟨hbl, h3'⟩ := C06_predictTags_window0 cfg m hm ht p hp store s s1 hs pid h1 bs hbs hn
+  rw [h3'] at h3
+  simp only [Res.ok.injEq] at h3
+  subst h3
+  refine ⟨fun h => by simp [h], fun h se hse => ?_⟩
+  rw [C06L.tagCandidates_spec cfg m s.text bs hbl _ (by simp [h]) se hse]
+  cases tagModelOf m ((s.text.drop se.1).take (se.2 - se.1)) with
+  | none => rfl
+  | some tm => simp only [specCandidates_eq]
+
+/-! ### non-vacuity: the model `C01_exModel0` (character window 0, ill-shaped character n-grams that are ignored, one tag model
+for the surface `a` with a character tag n-gram `ba` at relative position 0 and a type tag n-gram one character after the
+token) and the sentence `aba` satisfy the hypotheses of the three theorems (`WFModel0 C01_exModel0` and
+`SentOK C01_exSentence` are in `C01.lean`), and the model computes what the specification says -/
+
+example : WFTags C01_exModel0 := ⟨by decide, by decide, by decide, by decide⟩
+example : 0 < specNTags C01_exModel0 := by decide
+example : (Predictor.new {} C01_exModel0 true).isOk = true := by decide
+example : ¬ WFModel C01_exModel0 := fun h => absurd h.charW_pos (by decide)
+
+/-- `predict` then `fill_tags` (storing scores or not) on the example, with boundaries `bs` put in between (`none`: as predicted) -/
+def C06_exRun0 (store : Bool) (bs : Option (List B)) : Res Sentence :=
+  (Predictor.new {} C01_exModel0 true).bind fun p =>
+    (p.predict 0 C01_exSentence).bind fun s1 =>
+      ({ p with storeTagScores := store } : Predictor).predictTags { s1 with bounds := bs.getD s1.bounds }
+
+/-- the specification on the example: the predicted boundaries are `[N, W]` (`C01.lean`), so the tokens are `ab` (no tag
+model) and the final `a`, whose class scores are those of the character tag n-gram `ba` ending at it — with the bias `[0, 0]`
+alone the first candidate `x` would win the tie -/
+example : specTokens [B.N, B.W] = [(0, 2), (2, 3)] := by decide
+example : specTagScores (C01_exModel0.tagModels.getD 0 default) C01_exSentence.text 2 = [1, 2] := by decide
+example : specAllTags C01_exModel0 C01_exSentence.text [B.N, B.W] = [none, none, some ['y']] := by decide
+
+/-- the model: `C06_predictTags_window0` / `C06_tags_window0` (tag count, tags, boundaries kept) … -/
+example : (C06_exRun0 true none).map (·.bounds) = .ok [B.N, B.W] := by decide
+example : (C06_exRun0 true none).map (·.nTags) = .ok (specNTags C01_exModel0) := by decide
+example : (C06_exRun0 true none).map (·.tags) = .ok [none, none, some ['y']] := by decide
+example : (C06_exRun0 false none).map (·.tags) = .ok [none, none, some ['y']] := by decide
+example : (C06_exRun0 true none).map (·.tagScores) = .ok (C06L.allScores {} C01_exModel0 C01_exSentence.text [B.N, B.W]) :=
+  rfl
+/-- … and `C06_candidates_window0` (the character tag n-gram is read although the character window is 0) -/
+example : (C06_exRun0 false none).map (·.tagScores) = .ok [] := rfl
+example : (C06_exRun0 true none).bind (·.tagCandidates 3) = .ok [[(['x'], 1), (['y'], 2)]] := by decide
+example : (C06_exRun0 true none).bind (·.tagCandidates 2) = .ok [] := by decide
+
+/-- other boundaries put in after prediction (`bs` is arbitrary in the theorems): both `a` are tokens, the first one gets the
+type tag n-gram one character after it, the last one the character tag n-gram -/
+example : specAllTags C01_exModel0 C01_exSentence.text [B.W, B.W] = [some ['y'], none, some ['y']] := by decide
+example : (C06_exRun0 true (some [B.W, B.W])).map (·.tags) = .ok [some ['y'], none, some ['y']] := by decide
+example : (C06_exRun0 true (some [B.W, B.W])).bind (·.tagCandidates 1) = .ok [[(['x'], 0), (['y'], 1)]] := by decide
+example : (C06_exRun0 true (some [B.W, B.W])).bind (·.tagCandidates 3) = .ok [[(['x'], 1), (['y'], 2)]] := by decide
+
+/-! ### both windows 0 and a tag n-gram beyond them: the table has `max(window + 1, rel + 1)` rows, so the character tag n-gram
+at relative position 2 (with `charW = 0`) and the type tag n-gram at relative position 1 (with `typeW = 0`) are both read -/
+
+def C06_exModel00 : WModel :=
+  { C01_exModel0 with
+    typeW := 0,
+    tagModels := [{ token := ['a'], tags := [[['x'], ['y']]], charNgrams := [⟨['b', 'a'], [⟨2, [5, 0]⟩]⟩],
+                    typeNgrams := [⟨[2], [⟨1, [0, 1]⟩]⟩], bias := [0, 0] }] }
+
+example : WFModel0 C06_exModel00 :=
+  { charW_le := by decide, typeW_le := by decide, char_nodup := by decide, char_shape := by decide,
+    type_nodup := by decide, type_shape := by decide, dict_nodup := by decide, dict_shape := by decide }
+example : WFTags C06_exModel00 := ⟨by decide, by decide, by decide, by decide⟩
+example : C06_exModel00.charW = 0 ∧ C06_exModel00.typeW = 0 ∧ 0 < specNTags C06_exModel00 := by decide
+example : specTagScores (C06_exModel00.tagModels.getD 0 default) C01_exSentence.text 0 = [5, 1] := by decide
+example : specAllTags C06_exModel00 C01_exSentence.text [B.W, B.W] = [some ['x'], none, some ['x']] := by decide
+
+def C06_exRun00 (bs : List B) : Res Sentence :=
+  (Predictor.new {} C06_exModel00 true).bind fun p =>
+    (p.predict 0 C01_exSentence).bind fun s1 =>
+      ({ p with storeTagScores := true } : Predictor).predictTags { s1 with bounds := bs }
+
+example : (C06_exRun00 [B.W, B.W]).map (·.tags) = .ok [some ['x'], none, some ['x']] := by decide
+example : (C06_exRun00 [B.W, B.W]).bind (·.tagCandidates 1) = .ok [[(['x'], 5), (['y'], 1)]] := by decide
+example : (C06_exRun00 [B.W, B.W]).bind (·.tagCandidates 3) = .ok [[(['x'], 0), (['y'], 0)]] := by decide
+
 end V
